@@ -19,7 +19,7 @@ cd /verif && VERIF_REPO=$WT timeout 3000 ./check $ID "$@" 2>&1 | grep -v "^KNOWN
 # optional demonstration: DEMO_PKG=<package dir> DEMO_RUN=<regex>
 if [ -n "${DEMO_PKG:-}" ]; then
   cd $WT
-  cp $SRC/demo_test.go $DEMO_PKG/zz_seed_demo_test.go
+  mkdir -p $DEMO_PKG; cp $SRC/demo_test.go $DEMO_PKG/zz_seed_demo_test.go
   echo "SEED $ID: demonstration WITH the change:"; go test -vet=off -count=1 -run "$DEMO_RUN" ./$DEMO_PKG 2>&1 | grep -E "^(--- |ok|FAIL|PASS)" | sort | uniq -c | head -8
   git apply -R $SRC/patch.diff
   echo "SEED $ID: demonstration WITHOUT the change:"; go test -vet=off -count=1 -run "$DEMO_RUN" ./$DEMO_PKG 2>&1 | grep -E "^(--- |ok|FAIL|PASS)" | sort | uniq -c | head -8
